@@ -104,10 +104,22 @@ theorem prevOp_eq (s : St) (h : WOk s) : s.prevOp = .ok (ent s 0) := by
 
 /-! ## the relation -/
 
+/-- the byte stores behind the cursors are what their managers make them: a ring of `prevopSize` bytes with its cursor
+inside (`ScriptCountManager`), a buffer of `progLength` bytes (`ScriptProgramManager`); each manager leaves the other's
+alone -/
+structure BOk (s : St) : Prop where
+  rsize : s.ring.data.size = 32
+  rcur : s.ringCur < 32
+  bsize : s.buf.data.size = s.progLen
+
+theorem ringSize_eq : ringSize = 32 := by decide
+
 /-- the windows of the two passes agree down to the first entry no decision tests -/
 structure W (c p : St) : Prop where
   vc : WOk c
   vp : WOk p
+  bc : BOk c
+  bp : BOk p
   agree : ∃ d, d ≤ 99 ∧ (∀ k, k < d → ent c k = ent p k ∧ tested (ent c k).op = true) ∧
     tested (ent c d).op = false ∧ tested (ent p d).op = false
 
@@ -121,14 +133,15 @@ theorem W.top {c p : St} (h : W c p) :
   | zero => exact .inr ⟨h1, h2⟩
   | succ d => exact .inl (hag 0 (by omega)).1
 
-theorem W.of_untested {c p : St} (hc : WOk c) (hp : WOk p) (h1 : tested (ent c 0).op = false)
+theorem W.of_untested {c p : St} (hc : WOk c) (hp : WOk p) (bc : BOk c) (bp : BOk p) (h1 : tested (ent c 0).op = false)
     (h2 : tested (ent p 0).op = false) : W c p :=
-  ⟨hc, hp, 0, by omega, fun k hk => by omega, h1, h2⟩
+  ⟨hc, hp, bc, bp, 0, by omega, fun k hk => by omega, h1, h2⟩
 
 /-- both passes push the same entry -/
 theorem W.accumulate {c p : St} (h : W c p) (op : Nat) (off : Int) : W (c.accumulate op off) (p.accumulate op off) := by
   obtain ⟨d, hd, hag, h1, h2⟩ := h.agree
-  refine ⟨accumulate_ok c h.vc op off, accumulate_ok p h.vp op off, ?_⟩
+  refine ⟨accumulate_ok c h.vc op off, accumulate_ok p h.vp op off, ⟨h.bc.rsize, h.bc.rcur, h.bc.bsize⟩,
+    ⟨h.bp.rsize, h.bp.rcur, h.bp.bsize⟩, ?_⟩
   by_cases ht : tested (op % 256) = true
   · by_cases hd98 : d + 1 ≤ 98
     · refine ⟨d + 1, by omega, ?_, ?_, ?_⟩
@@ -154,15 +167,9 @@ theorem W.accumulate {c p : St} (h : W c p) (op : Nat) (off : Int) : W (c.accumu
     · rw [ent_accumulate_zero p h.vp]; simpa using ht
 
 /-- the passes push different entries, neither of them tested (the fusion) -/
-theorem W.accumulate_untested {c p : St} (hc : WOk c) (hp : WOk p) (op1 op2 : Nat) (o1 o2 : Int)
-    (h1 : tested (op1 % 256) = false) (h2 : tested (op2 % 256) = false) :
-    W (c.accumulate op1 o1) (p.accumulate op2 o2) :=
-  W.of_untested (accumulate_ok c hc _ _) (accumulate_ok p hp _ _)
-    (by rw [ent_accumulate_zero c hc]; exact h1) (by rw [ent_accumulate_zero p hp]; exact h2)
-
-theorem W.cleared {c p : St} (hc : WOk c) (hp : WOk p) : W c.cleared p.cleared :=
-  W.of_untested (cleared_ok c hc) (cleared_ok p hp)
-    (by rw [ent_cleared_zero c hc]; exact tested_previous) (by rw [ent_cleared_zero p hp]; exact tested_previous)
+theorem W.cleared {c p : St} (h : W c p) : W c.cleared p.cleared :=
+  W.of_untested (cleared_ok c h.vc) (cleared_ok p h.vp) ⟨h.bc.rsize, h.bc.rcur, h.bc.bsize⟩ ⟨h.bp.rsize, h.bp.rcur, h.bp.bsize⟩
+    (by rw [ent_cleared_zero c h.vc]; exact tested_previous) (by rw [ent_cleared_zero p h.vp]; exact tested_previous)
 
 /-- both passes absorb a tested top entry -/
 theorem W.pop {c p : St} (h : W c p) (ht : tested (ent c 0).op = true) : W c.pop p.pop := by
@@ -170,7 +177,7 @@ theorem W.pop {c p : St} (h : W c p) (ht : tested (ent c 0).op = true) : W c.pop
   cases d with
   | zero => rw [ht] at h1; cases h1
   | succ d =>
-    refine ⟨pop_ok c h.vc, pop_ok p h.vp, d, by omega, ?_, ?_, ?_⟩
+    refine ⟨pop_ok c h.vc, pop_ok p h.vp, ⟨h.bc.rsize, h.bc.rcur, h.bc.bsize⟩, ⟨h.bp.rsize, h.bp.rcur, h.bp.bsize⟩, d, by omega, ?_, ?_, ?_⟩
     · intro k hk
       rw [ent_pop c h.vc k (by omega), ent_pop p h.vp k (by omega)]
       exact hag (k + 1) (by omega)
